@@ -5,6 +5,7 @@ package mesh
 // VerifSender drives a real gossipSender (Send / Broadcast / pick / deliver) over a recording
 // protocol sender, without the sender goroutine, so that a harness decides when delivery happens.
 type VerifSender struct {
+	lastSrc PeerName
 	s    *gossipSender
 	Sent [][]byte
 	stop chan struct{}
@@ -22,7 +23,10 @@ func NewVerifSender() *VerifSender {
 	v := &VerifSender{stop: make(chan struct{})}
 	v.s = &gossipSender{
 		makeMsg:          func(msg []byte) protocolMsg { return protocolMsg{ProtocolGossip, msg} },
-		makeBroadcastMsg: func(srcName PeerName, msg []byte) protocolMsg { return protocolMsg{ProtocolGossipBroadcast, msg} },
+		makeBroadcastMsg: func(srcName PeerName, msg []byte) protocolMsg {
+			v.lastSrc = srcName
+			return protocolMsg{ProtocolGossipBroadcast, msg}
+		},
 		sender:           verifRecorder{v},
 		broadcasts:       make(map[PeerName]GossipData),
 		more:             make(chan struct{}, 1),
@@ -41,4 +45,30 @@ func (v *VerifSender) Deliver() [][]byte {
 	v.Sent = nil
 	v.s.deliver(v.stop)
 	return v.Sent
+}
+
+// VerifPiece is one piece of data picked by the sender.
+type VerifPiece struct {
+	Broadcast bool
+	Src       PeerName
+	Msgs      [][]byte
+}
+
+// DeliverOne lets the real pick() choose once (the gossip slot first, else one broadcast source)
+// and returns what it would hand to the connection; ok = false when nothing was pending.
+func (v *VerifSender) DeliverOne() (p VerifPiece, ok bool) {
+	data, mk := v.s.pick()
+	if data == nil {
+		return VerifPiece{}, false
+	}
+	v.lastSrc = 0
+	m := mk(nil)
+	return VerifPiece{Broadcast: m.tag == ProtocolGossipBroadcast, Src: v.lastSrc, Msgs: data.Encode()}, true
+}
+
+// Pending reports what is queued: the gossip slot and the number of broadcast sources.
+func (v *VerifSender) Pending() (gossip bool, broadcasts int) {
+	v.s.Lock()
+	defer v.s.Unlock()
+	return v.s.gossip != nil, len(v.s.broadcasts)
 }
